@@ -77,7 +77,8 @@ DI = "elftools/dwarf/dwarfinfo.py"
 PARSE_EXC = ["ELFParseError", "DWARFError", "OverflowError", "AssertionError"]
 CfgT = Rec('DwarfConfig', little_endian=Bool, machine_arch=Str, default_address_size=Choice(4, 8))
 # what a unit object holds when it is created (empty entry cache)
-TUNewT = Obj('TypeUnit', tu_offset=Nat, tu_die_offset=Nat, header=TUHdr, structs=DwStructsT)
+TUNewT = Obj('TypeUnit', tu_offset=Nat, tu_die_offset=Nat, header=TUHdr, structs=DwStructsT, _dielist=ListOf(DIETT), _diemap=ListOf(Nat),
+             dwarfinfo=DInfoTT)
 
 
 @contract(TU, "TypeUnit.__init__", props=["C04", "C10"])
@@ -93,7 +94,7 @@ class parse_tu_at:
     params = dict(self=Obj('DWARFInfo', debug_types_sec=TypesSecT, debug_info_sec=InfoSecT, structs=DwStructsT, config=CfgT), offset=Nat)
     returns = TUNewT
     ensures = ["tu_at(result, self.debug_types_sec.stream.B, offset)", "result.header.version >= 2 and result.header.version <= 5",
-               "result.structs.little_endian == self.config.little_endian", "result.dwarfinfo is self",
+               "result.structs.little_endian == self.config.little_endian", "@check result.dwarfinfo is self",
                "len(result._dielist) == 0 and len(result._diemap) == 0"]
     may_raise = PARSE_EXC
 
@@ -116,3 +117,45 @@ class parse_tus_iter:
 @contract(DI, "DWARFInfo.iter_TUs", props=["C04", "C10"])
 class iter_tus:
     inline = True
+
+
+# ---------------------------------------------------------------- the signature map of .debug_types
+from specs.dwarf import types_wellformed
+
+TUCached = TUFull          # a type unit of the map: with its own lazily built entry cache in view
+SigMapT = DictOf(TUCached)
+SIG_INV = "forall(lambda s: not (s in self._type_units_by_sig) or (tu_at(self._type_units_by_sig[s], self.debug_types_sec.stream.B," \
+          " self._type_units_by_sig[s].tu_offset) and self._type_units_by_sig[s].header.signature == s))"
+# the map is a representation field: only _parse_debug_types writes it; once built it satisfies SIG_INV
+SIG_RI = ["self._type_units_by_sig is None or self.debug_types_sec is None or " + SIG_INV,
+          "self._type_units_by_sig is None or self.debug_types_sec is not None or forall(lambda s: not (s in self._type_units_by_sig))"]
+TUOwnerT = Obj('DWARFInfo', _inv=SIG_RI, _rep=('_type_units_by_sig',), debug_types_sec=SymOpt(TypesSecT), debug_info_sec=InfoSecT,
+               structs=DwStructsT, config=CfgT, _type_units_by_sig=SymOpt(SigMapT))
+
+
+@contract(DI, "DWARFInfo._parse_debug_types", props=["C04", "C10"])
+class parse_debug_types:
+    """the map from type signatures to the type units of .debug_types, built on first use and kept: every entry is a type
+    unit parsed from the section at its own offset whose header carries the key as its signature (a signature that occurs
+    twice keeps the later unit); an already built map is left alone; without the section the map is empty"""
+    params = dict(self=TUOwnerT)
+    modifies = ["self._type_units_by_sig", "*rep", "self.debug_types_sec.stream.pos"]
+    loops = {0: dict(invariant=[SIG_INV, "offset >= 0"], shapes={"self._type_units_by_sig": SigMapT})}
+    havoc_shapes = {"self._type_units_by_sig": SigMapT}
+    ensures = ["self._type_units_by_sig is not None",
+               "self.debug_types_sec is not None or forall(lambda s: not (s in self._type_units_by_sig))",
+               "@when old(self._type_units_by_sig) is None and self.debug_types_sec is not None :: " + SIG_INV]
+    may_raise = PARSE_EXC
+
+
+@contract(DI, "DWARFInfo.get_TU_by_sig8", props=["C04", "C10"])
+class get_tu_by_sig8:
+    """the type unit registered under the signature: a unit of .debug_types whose header carries that signature; an
+    unknown signature is a KeyError"""
+    params = dict(self=TUOwnerT, sig8=U(64))
+    modifies = ["*rep", "self.debug_types_sec.stream.pos"]
+    rep_reader = True
+    returns = TUCached
+    ensures = ["result.header.signature == sig8", "self.debug_types_sec is not None",
+               "tu_at(result, self.debug_types_sec.stream.B, result.tu_offset)"]
+    may_raise = PARSE_EXC + ["KeyError"]
